@@ -56,7 +56,7 @@ func genNetConn(r *Rng, tier string, stat func(string)) []string {
 		out = append(out, fmt.Sprintf("kind=stream typ=%d writes=%s reads=%s cmode=%d smode=%d", 1+r.Intn(2), strings.Join(ws, ","), strings.Join(rs, ","), r.Intn(3), r.Intn(3)))
 		stat("stream")
 	}
-	for _, code := range []int{1000, 1001, 1002, 1003, 1008, 1011, 3000, 4000, 4999} {
+	for _, code := range []int{1000, 1001, 1002, 1003, 1005, 1008, 1011, 3000, 4000, 4999} { // 1005: a Close frame without payload
 		for typ := 1; typ <= 2; typ++ {
 			out = append(out, fmt.Sprintf("kind=close code=%d typ=%d", code, typ))
 			stat("close")
@@ -232,7 +232,11 @@ func runNetConnG(kv map[string]string, g *ghost) string {
 		if kv["kind"] == "close" {
 			code, _ := strconv.Atoi(kv["code"])
 			peer.send(rawFrame{Fin: true, Opcode: byte(typ), Payload: []byte("abc")})
-			peer.send(rawFrame{Fin: true, Opcode: 8, Payload: []byte{byte(code >> 8), byte(code), 'x'}})
+			if code == 1005 {
+				peer.send(rawFrame{Fin: true, Opcode: 8}) // no status on the wire: CloseStatus reports StatusNoStatusRcvd
+			} else {
+				peer.send(rawFrame{Fin: true, Opcode: 8, Payload: []byte{byte(code >> 8), byte(code), 'x'}})
+			}
 			buf := make([]byte, 16)
 			k, e1 := nc.Read(buf)
 			_, e2 := nc.Read(buf)
